@@ -77,7 +77,12 @@ def tasks(tier, seed):
 # (a) fold step
 # ---------------------------------------------------------------------------
 class Mark(list):
-    pass
+    """stands for the list of matched pairs of the one matching of the step; its length is the symbolic size, so it is
+    falsy exactly when that size is 0"""
+    size = None
+
+    def __bool__(self):
+        return bool(self.size != 0)
 
 
 def lexlt(a, b):
@@ -173,6 +178,7 @@ def fold_task(task, res):
         else:
             e.assume(rec['valid'].t)
         mark = Mark()
+        mark.size = rec['size']
         solver.get_matching_pairs = lambda m: mark
         solver.is_valid = lambda pairs: rec['valid']
         model._get_cost = lambda p: rec['cost']
@@ -461,6 +467,7 @@ def fold_concrete(d):
     solver = bfm.Brute_force_solver(sv.options_parser.instance_options, model)
     rec, pre = d['rec'], d['pre']
     mark = Mark()
+    mark.size = rec['size']
     solver.get_matching_pairs = lambda m: mark
     solver.is_valid = lambda pairs: bool(rec['valid'])
     model._get_cost = lambda p: tuple(rec['cost'])
